@@ -1572,6 +1572,148 @@ Proof.
   rewrite Hloop, Hapi in Hb. inversion Hb; eauto.
 Qed.
 
+(** * filter then bind with any number of requested range lists, pairwise disjoint *)
+
+(** no address of a range list lies in a later one *)
+Fixpoint disjoint_list (rss : list (list range)) : Prop :=
+  match rss with
+  | [] => True
+  | rs :: rest => (∀ rs' x, rs' ∈ rest → in_ranges rs x = true → in_ranges rs' x = true → False) ∧ disjoint_list rest
+  end.
+
+Lemma ranges_disjoint_tail rs rss : ranges_disjoint (rs :: rss) → ranges_disjoint rss.
+Proof. intros H i j r r' x Hi Hj Hne. apply (H (S i) (S j) r r' x); [done|done|lia]. Qed.
+
+Lemma missing_of_sub : ∀ slots rss rs, rs ∈ missing_of slots rss → rs ∈ rss.
+Proof.
+  unfold missing_of. induction slots as [|s slots IH]; intros [|rs0 rss] rs H; simpl in H; try (by inversion H).
+  apply elem_of_app in H as [H|H]; [|right; by apply IH]. destruct s; [inversion H|].
+  apply elem_of_list_singleton in H as ->. left.
+Qed.
+
+Lemma disjoint_missing : ∀ slots rss, ranges_disjoint rss → disjoint_list (missing_of slots rss).
+Proof.
+  induction slots as [|s slots IH]; intros [|rs0 rss] Hd; try exact I.
+  pose proof (IH rss (ranges_disjoint_tail _ _ Hd)) as IH'.
+  change (missing_of (s :: slots) (rs0 :: rss)) with
+    ((match s with None => [rs0] | Some _ => [] end) ++ missing_of slots rss)%list.
+  destruct s as [y|]; [exact IH'|]. split; [|exact IH'].
+  intros rs' x Hin H1 H2. apply missing_of_sub, elem_of_list_lookup in Hin as [j Hj].
+  apply (Hd 0%nat (S j) rs0 rs' x); done.
+Qed.
+
+(** the pick phase of AllocateInSubnetsAndIPRange finds an address for every range list *)
+Lemma pick_ips_ok s sn : ∀ rss picked, disjoint_list rss →
+  (∀ rs, rs ∈ rss → ∃ x, subnet_candidate s sn x = true ∧ in_ranges rs x = true) →
+  (∀ rs y, rs ∈ rss → y ∈ picked → in_ranges rs y = false) →
+  ∃ L, pick_ips s sn rss picked = Some L.
+Proof.
+  induction rss as [|rs rest IH]; intros picked Hd Hfree Hpicked; cbn [pick_ips]; [eauto|].
+  destruct Hd as [Hd1 Hd2].
+  set (f := λ ip : N, subnet_candidate s sn ip && negb (existsb (N.eqb ip) picked)).
+  destruct (first_in_ranges_total f rs (ranges_fuel rs)) as (o & Ho & Hnone); [unfold ranges_fuel; lia|].
+  rewrite Ho. destruct o as [ip|].
+  2:{ exfalso. destruct (Hfree rs) as (x & Hc & Hin); [left|]. specialize (Hnone eq_refl x Hin). unfold f in Hnone.
+      rewrite Hc in Hnone. cbn [andb] in Hnone. apply negb_false_iff, existsb_exists in Hnone as (y & Hy & Hxy).
+      apply N.eqb_eq in Hxy as <-. rewrite (Hpicked rs x) in Hin; [done|left|by apply elem_of_list_In]. }
+  apply first_in_ranges_spec in Ho as [Hf Hipin]. apply IH; [done| |].
+  - intros rs' Hrs'. apply Hfree. by right.
+  - intros rs' y Hrs' Hy. apply elem_of_cons in Hy as [->|Hy]; [|apply Hpicked; [by right|done]].
+    destruct (in_ranges rs' ip) eqn:E; [|done]. by destruct (Hd1 rs' ip).
+Qed.
+
+Lemma create_all_ok key a t : ∀ ips st, NoDup ips → (∀ x, x ∈ ips → st !! x = None) →
+  ∃ st', create_all st key a t ips None = (st', ips, true).
+Proof.
+  induction ips as [|x ips IH]; intros st Hnd Hnone; cbn [create_all]; [eauto|].
+  apply NoDup_cons in Hnd as [Hx Hnd]. unfold st_create. rewrite (Hnone x) by left.
+  destruct (IH (<[x := mk_entry key a false t]> st) Hnd) as (st' & ->); [|eauto].
+  intros y Hy. rewrite lookup_insert_ne by (intros ->; done). apply Hnone. by right.
+Qed.
+
+(** with, for every range list, a free address routable from the subnet, pairwise-disjoint lists and no store fault,
+    AllocateInSubnetsAndIPRange succeeds *)
+Lemma alloc_ranges_ok s key sn rss a : Inv2 s → disjoint_list rss →
+  (∀ rs, rs ∈ rss → ∃ x, x ∈ i_unalloc s ∧ in_ranges rs x = true ∧ ip_has_subnet (i_pools s) x sn = true) →
+  ∃ s' ips, alloc_ranges s key sn rss a None = (s', AOk, ips).
+Proof.
+  intros HI2 Hd Hfree. unfold alloc_ranges.
+  destruct (pick_ips_ok s sn rss [] Hd) as (L & HL).
+  { intros rs Hrs. destruct (Hfree rs Hrs) as (x & Hx & Hin & Hsn). exists x. split; [|done].
+    unfold subnet_candidate. by rewrite bool_decide_eq_true_2, Hsn. }
+  { intros rs y _ Hy. inversion Hy. }
+  rewrite HL. destruct (pick_ips_spec _ _ _ _ _ HL) as (L' & HL' & _ & HF & Hnd). simpl in HL'. subst L'.
+  destruct (create_all_ok key a (i_clock s) L (i_store s)) as (st' & ->); [apply Hnd; constructor| |eauto].
+  intros x Hx. apply elem_of_list_lookup in Hx as [k Hk]. destruct (Forall2_lookup_l _ _ _ _ _ HF Hk) as (rs & _ & Hc & _).
+  apply subnet_candidate_unalloc in Hc. destruct (i_store s !! x) as [ob|] eqn:Es; [|done]. exfalso.
+  destruct (inv2_store_alloc _ _ _ HI2 Es) as (e & He & _). destruct HI2 as [HI _]. by rewrite (inv_disj _ HI x Hc) in He.
+Qed.
+
+Lemma filter_then_bind_missing_l w p nodes o fl w1 l ns name node o2 w2 r :
+  WInv w → w_pods w !! (ns, name) = Some p → pd_node p = [] → ranges_disjoint (pd_ranges p) →
+  missing_of (by_key_ranges (w_ipam w) (pod_key p) (pd_ranges p)) (pd_ranges p) ≠ [] →
+  filter_section w p nodes o fl = (w1, FNodes l) → In node l →
+  w_lister w1 !! (ns, name) = Some p →
+  bind_section true true w1 ns name (pd_uid p) node o2 no_faults = (w2, r) →
+  (∃ ips, r = BOk ips) ∨
+  (r = BErr ∧ ∃ y ey, i_alloc (w_ipam w1) !! y = Some ey ∧ e_key ey = pod_key p ∧ e_uid ey ≠ [] ∧ e_uid ey ≠ pd_uid p).
+Proof.
+  intros HW Hp Hn Hdisj Hmiss Hf Hnode Hl Hb. pose proof (wi_ipam w HW) as HI2.
+  assert (pd_ranges p ≠ []) as Hr.
+  { intros E. apply Hmiss. rewrite E. done. }
+  (* filter: unchanged world, and for every missing range list a free address routable from the node *)
+  assert (w1 = w ∧ ∃ nip sn, w_nodes w !! node = Some nip ∧ node_subnet (w_ipam w) nip = Some sn ∧
+            ∀ rs, rs ∈ missing_of (by_key_ranges (w_ipam w) (pod_key p) (pd_ranges p)) (pd_ranges p) →
+              ∃ x, x ∈ i_unalloc (w_ipam w) ∧ in_ranges rs x = true ∧ ip_has_subnet (i_pools (w_ipam w)) x sn = true)
+    as (-> & nip & sn & Hnip & Hsn & Hfree).
+  { rewrite filter_section_unfold in Hf. destruct (pd_ranges p) as [|rs0 rss0] eqn:Er; [done|]. rewrite <- Er in *.
+    cbv zeta in Hf.
+    destruct (missing_of (by_key_ranges (w_ipam w) (pod_key p) (pd_ranges p)) (pd_ranges p)) as [|m0 ms] eqn:Em; [done|].
+    apply filter_cont_nodes in Hf as [(-> & Hll)|(Hnil & _)]; [|discriminate Hnil]. split; [done|].
+    destruct Hll as [->| ->]; apply in_filter_node_ok in Hnode as (_ & nip & sn & H1 & H2 & H3); [inversion H3|].
+    exists nip, sn. split_and!; try done. apply elem_of_node_subnets_by_ranges.
+    unfold restrict_subnets in H3. destruct (somes _); [done|]. by apply elem_of_sn_inter in H3 as [? _]. }
+  set (slots := by_key_ranges (w_ipam w) (pod_key p) (pd_ranges p)) in *.
+  rewrite bind_section_unfold, Hl, f2_guard_self in Hb.
+  assert (bind_slots (w_ipam w) p o2 = Some slots) as Hs.
+  { unfold bind_slots. by destruct (pd_ranges p). }
+  rewrite Hs in Hb. destruct (bind_guard (w_ipam w) p) eqn:Eg.
+  { right. inversion Hb; subst. split; [done|]. by apply bind_guard_true. }
+  left.
+  destruct (alloc_ranges_ok (w_ipam w) (pod_key p) sn (missing_of slots (pd_ranges p)) (bind_attr p node) HI2
+              (disjoint_missing _ _ Hdisj) Hfree) as (s' & fresh & Ha).
+  assert (bind_alloc w (pod_key p) node (pd_ranges p) slots (bind_attr p node) o2 no_faults =
+          Some (set_ipam w s', Some (somes (by_key_ranges s' (pod_key p) (pd_ranges p))))) as Hba.
+  { unfold bind_alloc. cbv zeta. fold (missing_of slots (pd_ranges p)). rewrite Hnip, Hsn.
+    change (f_store no_faults) with (@None nat). rewrite Ha.
+    destruct (missing_of slots (pd_ranges p)); [done|]. reflexivity. }
+  rewrite Hba in Hb.
+  pose proof (inv2_alloc_ranges (w_ipam w) (pod_key p) sn (missing_of slots (pd_ranges p)) (bind_attr p node) None HI2) as HI'.
+  rewrite Ha in HI'. simpl in HI'.
+  destruct (bind_tail_ok (set_ipam w s') ns name p node (somes (by_key_ranges s' (pod_key p) (pd_ranges p))) (somes slots))
+    as (wa & wb & Hloop & Hapi); [done|done|done| |].
+  { intros z Hz _. apply elem_of_somes in Hz. by eapply by_key_ranges_keyed. }
+  rewrite Hloop, Hapi in Hb. inversion Hb; eauto.
+Qed.
+
+(** filter then bind, the statement asked for, for pairwise-disjoint requested range lists *)
+Lemma filter_then_bind_l w p nodes o fl w1 l ns name node o2 w2 r :
+  WInv w → w_pods w !! (ns, name) = Some p → pd_node p = [] → ranges_disjoint (pd_ranges p) →
+  filter_section w p nodes o fl = (w1, FNodes l) → In node l →
+  w_lister w1 !! (ns, name) = Some p →
+  bind_section true true w1 ns name (pd_uid p) node o2 no_faults = (w2, r) →
+  (∃ ips, r = BOk ips) ∨ r = BStuck ∨
+  (r = BErr ∧ ∃ y ey, i_alloc (w_ipam w1) !! y = Some ey ∧ e_key ey = pod_key p ∧ e_uid ey ≠ [] ∧ e_uid ey ≠ pd_uid p).
+Proof.
+  intros HW Hp Hn Hdisj Hf Hnode Hl Hb.
+  destruct (decide (pd_ranges p = [])) as [Hr|Hr]; [by eapply filter_then_bind_noranges_l|].
+  destruct (missing_of (by_key_ranges (w_ipam w) (pod_key p) (pd_ranges p)) (pd_ranges p)) as [|m0 ms] eqn:Em.
+  - apply missing_nil_all_some in Em; [|rewrite by_key_ranges_map; apply map_length].
+    destruct (filter_then_bind_owned_l _ _ _ _ _ _ _ _ _ _ _ _ _ HW Hp Hn Hr Em Hf Hnode Hl Hb) as [?|?]; auto.
+  - assert (missing_of (by_key_ranges (w_ipam w) (pod_key p) (pd_ranges p)) (pd_ranges p) ≠ []) as Hne by (by rewrite Em).
+    destruct (filter_then_bind_missing_l _ _ _ _ _ _ _ _ _ _ _ _ _ HW Hp Hn Hdisj Hne Hf Hnode Hl Hb) as [?|?]; auto.
+Qed.
+
 (** the requested range lists in which the key holds no IP yet *)
 Definition missing_ranges (i : ipam) (p : pod) : list (list range) :=
   missing_of (by_key_ranges i (pod_key p) (pd_ranges p)) (pd_ranges p).
@@ -1594,4 +1736,26 @@ Proof.
   - apply missing_nil_all_some in Em; [|rewrite by_key_ranges_map; apply map_length].
     destruct (filter_then_bind_owned_l _ _ _ _ _ _ _ _ _ _ _ _ _ HW Hp Hn Hr Em Hf Hnode Hl Hb) as [?|?]; auto.
   - destruct (filter_then_bind_one_missing_l _ _ _ _ _ _ _ _ _ _ _ _ _ _ HW Hp Hn Hr Em Hf Hnode Hl Hb) as [?|?]; auto.
+Qed.
+
+(** non-vacuity with TWO range lists to allocate: a fresh pod requesting 10.100.0.3 (pool A: node1, node2) and
+    10.101.0.2 (pool B: node1, node3) is offered node1 only, and bind there writes both *)
+Definition ex_ftb_world : world := simple_world (ipam_init ex_conf2b) ex_ranges_pod ex_nodes ∅ ∅.
+Lemma ex_ftb_ranges_l :
+  let w := ex_ftb_world in let p := ex_ranges_pod in
+  WInv w ∧ w_pods w !! (L "ns1", L "web-0") = Some p ∧ w_lister w !! (L "ns1", L "web-0") = Some p ∧ pd_node p = [] ∧
+  ranges_disjoint (pd_ranges p) ∧ List.length (missing_ranges (w_ipam w) p) = 2%nat ∧
+  filter_section w p ex_allnodes no_oracle no_faults = (w, FNodes [L "node1"]) ∧
+  (bind_section true true w (L "ns1") (L "web-0") (pd_uid p) (L "node1") no_oracle no_faults).2 =
+    BOk [ip4 10 100 0 3; ip4 10 101 0 2].
+Proof.
+  split_and!.
+  - apply winv_simple; [apply ipam_init_inv2|apply set_req_wf, mk_pod_wf; reflexivity|done].
+  - vm_compute; reflexivity.
+  - vm_compute; reflexivity.
+  - reflexivity.
+  - apply ranges_disjoint_ones. refine (proj1 (bool_decide_eq_true _) _). vm_compute. reflexivity.
+  - vm_compute; reflexivity.
+  - vm_compute; reflexivity.
+  - vm_compute; reflexivity.
 Qed.
